@@ -271,10 +271,13 @@ impl Crate {
                     )
                     .unwrap();
                 let source_krate = collection.get_or_compute(&source_package_id).unwrap();
-                if let Ok(source_id) =
+                // Re-exports are visited in an arbitrary order and more than one prefix can match
+                // (e.g. a glob re-export next to the re-export of a module): keep looking unless
+                // the item has actually been found behind this one.
+                if let Ok(Ok(source_id)) =
                     source_krate.get_item_id_by_path(&original_source_path, collection)
                 {
-                    return Ok(source_id);
+                    return Ok(Ok(source_id));
                 }
             }
         }
